@@ -3,8 +3,8 @@
 From Coq Require Import ZArith Reals Lra List Bool.
 From Coquelicot Require Import Coquelicot.
 From PW Require Import Num NumR Vec Mat Result.
-From PW.model Require Import M_rodrigues M_rodrigues_spec.
-From PW.proofs Require Import P_rodrigues P_rodrigues_inv P_rodrigues_jac P_rodrigues_rt P_rodrigues_half P_rodrigues_deriv P_rodrigues_tiny P_rodrigues_zones.
+From PW.model Require Import M_rodrigues M_rodrigues_spec M_rodrigues_exact.
+From PW.proofs Require Import P_rodrigues P_rodrigues_inv P_rodrigues_jac P_rodrigues_rt P_rodrigues_half P_rodrigues_deriv P_rodrigues_tiny P_rodrigues_zones P_rodrigues_exact.
 Import ListNotations.
 Local Open Scope R_scope.
 
@@ -86,20 +86,25 @@ Theorem C10_inv_zero_zone_maps_back : forall proj (m : mat3 R), proj_ok proj -> 
 Proof. exact inv_zero_zone. Qed.
 (* half-turn zone (c <= 0), not an exact half-turn.  Proved: a vector is returned, its length is exactly the rotation
    angle acos((tr R - 1)/2) of R (in [pi/2, pi]), so mapping it back gives a rotation by the right angle.
-   Missing: that the axis recovered from the diagonal is within the 2.5e-5 the property states (exact only at angle pi,
-   C10_half_turn_roundtrip); sampled by the oracle at 1e-9 .. 1e-5 rad from pi. *)
+   Missing: the entrywise bound on R - fwd(v).  Trying to prove it exposed a genuine defect of the original sign tests
+   (fixes/C10-halfturn-sign-from-symmetric-part.diff: error 4e-3 for axis (1e-3, 2e-3, 1), angle pi - 9e-6); the model is
+   the repaired code.  For the repaired code the paper argument gives |R - fwd v|_max <= 2 s + 2 sqrt(1 + c) <= 4 s < 4e-5
+   (2 s is attained: the first component is forced >= 0, so the axis may come back as -k, i.e. the angle as pi + eps);
+   not mechanised -- sampled by the oracle (kinds inv_of_fwd, inv_threshold, inv_halfturn_two_small) against 2.5e-5. *)
 Theorem C10_inv_halfturn_zone_partial : forall proj (m : mat3 R), proj_ok proj -> proper m ->
   rod_inv_s ROps m < rod_small ROps -> rod_inv_c ROps m <= 0 ->
   exists v, rodrigues_inv ROps proj m = Some v /\
     vnorm ROps v = acos ((a00 m + a11 m + a22 m - 1) * / 2) /\ PI / 2 <= vnorm ROps v <= PI /\
     cos (vnorm ROps v) = (a00 m + a11 m + a22 m - 1) * / 2.
 Proof. exact inv_halfturn_zone. Qed.
-(* vector -> matrix -> vector inside the zones.  Next to 0: the zero vector comes back, so the round-trip error is |r|
-   itself.  Missing: the numeric step from sin|r| < 1e-5, cos|r| > 0 to |r| <= 2.5e-5 (it is < 1.0000000001e-5). *)
-Theorem C10_inv_of_fwd_zero_zone_partial : forall proj (r : vec3 R), proj_ok proj ->
-  rod_eps ROps <= vnorm ROps r <= PI -> sin (vnorm ROps r) < rod_small ROps -> 0 < cos (vnorm ROps r) ->
-  rodrigues_inv ROps proj (rodrigues_fwd ROps r) = Some (vzero ROps).
-Proof. exact inv_of_fwd_zero_zone. Qed.
+(* vector -> matrix -> vector inside the zones.  Next to 0 (0 < |r| < pi/2 with sin|r| < 1e-5): the zero vector comes back,
+   so the round-trip error is |0 - r| = |r| <= 1e-5 (1 + 1e-5) < 2.5e-5 (from sin t >= t - t^3/6). *)
+Theorem C10_inv_of_fwd_zero_zone : forall proj (r : vec3 R), proj_ok proj ->
+  0 < vnorm ROps r < PI / 2 -> sin (vnorm ROps r) < rod_small ROps ->
+  rodrigues_inv ROps proj (rodrigues_fwd ROps r) = Some (vzero ROps) /\
+  vnorm ROps (vsub ROps (vzero ROps) r) <= rod_small ROps * (1 + rod_small ROps) /\
+  rod_small ROps * (1 + rod_small ROps) < 25 / 1000000.
+Proof. exact inv_of_fwd_zero_zone_full. Qed.
 (* Next to pi: a vector of exactly the length |r| comes back.  Missing: its direction is within 2.5e-5 of r/|r| or of
    -r/|r| (the sign may flip only at a half-turn, where k and -k are the same rotation). *)
 Theorem C10_inv_of_fwd_halfturn_zone_partial : forall proj (r : vec3 R), proj_ok proj ->
@@ -126,9 +131,16 @@ Theorem C10_rodrigues_formula_derivative : forall (r e : vec3 R) (a b : nat),
   is_derive (fun t => m3get (R_of (vadd ROps r (vscale ROps t e))) a b) 0
     (vx e * m3get (J 0%nat) a b + vy e * m3get (J 1%nat) a b + vz e * m3get (J 2%nat) a b).
 Proof. exact fwd_formula_derive. Qed.
-(* |r| < eps: the code returns the generators d[k]x/dk_j (the derivative of the exact map at r = 0).  Proved: what is
-   returned.  Missing: that this table is the derivative at 0 of the exact rotation map (limits of sin t / t), and the
-   O(eps) deviation for 0 < |r| < eps; both sampled by the finite-difference oracle. *)
+(* at r = 0 the table the code returns is the derivative of the EXACT rotation map (rod_exact: no eps shortcut): along a
+   coordinate axis the exact map is the plane rotation by the angle t, whose derivative at 0 is the generator [e_j]x *)
+Theorem C10_fwd_jacobian_at_zero : forall (j a b : nat), (j < 3)%nat -> (a < 3)%nat -> (b < 3)%nat ->
+  nth_error (rodrigues_fwd_jac ROps (V3 0 0 0)) j = Some (rod_dskew ROps j) /\
+  (forall t, rod_exact (vscale ROps t (vbasis ROps j)) = plane_rot j t) /\
+  is_derive (fun t => m3get (rod_exact (vscale ROps t (vbasis ROps j))) a b) 0 (m3get (rod_dskew ROps j) a b).
+Proof. exact fwd_jacobian_at_zero. Qed.
+(* 0 < |r| < eps: the code still returns the generators.  Proved: what is returned (and the exact derivative there is the
+   formula's Jacobian, C10_rodrigues_formula_derivative).  Missing: the O(|r|) < 1e-15 distance between the two; sampled by
+   the finite-difference oracle. *)
 Theorem C10_fwd_jacobian_tiny_partial : forall r : vec3 R, vnorm ROps r < rod_eps ROps ->
   rodrigues_fwd_jac ROps r = [rod_dskew ROps 0; rod_dskew ROps 1; rod_dskew ROps 2].
 Proof. exact fwd_jac_small. Qed.
@@ -236,7 +248,7 @@ Qed.
 
 Definition C10_all := (C10_fwd_proper, C10_fwd_fixes_axis, C10_fwd_fixes_vector, C10_fwd_turns_perp,
   C10_fwd_zero_is_identity, C10_fwd_tiny_is_identity, C10_fwd_tiny_error_bound, C10_inv_of_fwd, C10_fwd_of_inv_generic, C10_inv_norm_le_pi, C10_half_turn_roundtrip, C10_inv_defined_and_short, C10_inv_zero_zone_maps_back,
-  C10_inv_halfturn_zone_partial, C10_inv_of_fwd_zero_zone_partial, C10_inv_of_fwd_halfturn_zone_partial, C10_jacobians_compose_zero_zone,
+  C10_inv_halfturn_zone_partial, C10_inv_of_fwd_zero_zone, C10_fwd_jacobian_at_zero, C10_inv_of_fwd_halfturn_zone_partial, C10_jacobians_compose_zero_zone,
   C10_fwd_jacobian_is_derivative, C10_rodrigues_formula_derivative, C10_fwd_jacobian_tiny_partial,
   C10_jacobians_compose_to_identity, C10_jacobians_compose_of_vector, C10_jacobians_compose_at_identity,
   C10_jacobians_compose_halfturn_refuted, C10_cv2_dispatch, C10_cv2_rejects_other_shapes,
